@@ -1,5 +1,6 @@
 import DateutilVerif.Properties.C18
 import DateutilVerif.Properties.TzFixedEqGen   -- translator tie for tzutc / tzoffset __eq__ and class facts (wt-tzfile)
+import DateutilVerif.Properties.C18Resolve
 #print axioms C18.program_sim
 #print axioms C18.program_sim_machine
 #print axioms C18.reachable_translated
@@ -41,6 +42,9 @@ import DateutilVerif.Properties.TzFixedEqGen   -- translator tie for tzutc / tzo
 #print axioms C18.resolve_none_iff
 #print axioms C18.resolve_raises_only_on_unreadable_file
 #print axioms C18.gettz_caches_exactly
+#print axioms C18.gen_nocache_eq_resolve
+#print axioms C18.gen_nocache_loops
+#print axioms C18.gen_nocache_uses_TZ
 -- copies and pickles: the reduce / rebuild model (wt-tzfile)
 #print axioms C18.reduce_roundtrip_dict
 #print axioms C18.reduce_roundtrip_eq
